@@ -46,10 +46,14 @@ def bincode_golden(env):
     cases = []
     fails = []
     for (route, headers, body) in [('/', {}, b''), ('/svc/method', {'timeout': '1500'}, b'\x01\x02\x03'), ('', {'k': ''}, bytes(range(200))),
-                                   ('/é', {}, b'x' * 70000)]:
+                                   ('/é', {}, b'x' * 70000), ('/Mixed/Case', {'X-Trace-Id': 'A', 'x-trace-id': 'b', 'Accept': 'Yes'}, b'Body')]:
         want = PREAMBLE + be32(len(bincode_req_header(route, headers))) + bincode_req_header(route, headers) + be32(len(body)) + body
         got = _run('write_request', dict(route=route, headers=headers, body=list(body), with_extension=True), env)
-        ok = got.get('ok') and got.get('len') == len(want) and (got.get('bytes') is None or got['bytes'] == want.hex()) and want.hex().startswith(got.get('head', 'x'))
+        if len(headers) > 1:
+            # a header map with several entries is written in the map's iteration order: only the length is comparable; the READ direction below is exact
+            ok = got.get('ok') and got.get('len') == len(want)
+        else:
+            ok = got.get('ok') and got.get('len') == len(want) and (got.get('bytes') is None or got['bytes'] == want.hex()) and want.hex().startswith(got.get('head', 'x'))
         cases.append(dict(kind='request', route=route, headers=headers, body_len=len(body), ok=bool(ok)))
         if not ok:
             fails.append(dict(scenario='write_request', args=dict(route=route, headers=headers, body=list(body[:64])), expected=dict(bytes=want.hex()[:400]), observed=got))
@@ -58,10 +62,10 @@ def bincode_golden(env):
         cases.append(dict(kind='request-read', route=route, ok=bool(ok2)))
         if not ok2:
             fails.append(dict(scenario='read_request', args=dict(bytes=want.hex()[:400]), expected=dict(route=route, headers=headers, body_len=len(body), extensions_empty=True), observed=back))
-    for (status, headers, body) in [(200, {}, b''), (404, {'status-message': 'nope'}, b'\xff'), (520, {}, b'q' * 1000)]:
+    for (status, headers, body) in [(200, {}, b''), (404, {'status-message': 'nope'}, b'\xff'), (520, {}, b'q' * 1000), (429, {'Retry-After': '1', 'retry-after': '2'}, b'Wait')]:
         want = PREAMBLE + be32(len(bincode_resp_header(status, headers))) + bincode_resp_header(status, headers) + be32(len(body)) + body
         got = _run('write_response', dict(status=status, headers=headers, body=list(body), with_extension=True), env)
-        ok = got.get('ok') and got.get('bytes') == want.hex()
+        ok = got.get('ok') and (got.get('bytes') == want.hex() or (len(headers) > 1 and got.get('len') == len(want)))      # several headers: iteration order of the map
         cases.append(dict(kind='response', status=status, ok=bool(ok)))
         if not ok:
             fails.append(dict(scenario='write_response', args=dict(status=status, headers=headers, body=list(body[:64])), expected=dict(bytes=want.hex()[:400]), observed=got))
